@@ -19,26 +19,16 @@ func init() {
 
 // batchCancelFns: functions that re-index pool entries and delete an outgoing tx.
 func (c *Ctx) batchCancelFns(reach map[*ssa.Function]bool) []*ssa.Function {
-	var out []*ssa.Function
-	for _, f := range c.SemanticFuncs(reach) {
-		effs := c.Effects(f)
-		if hasEff(effs, "store", "Set", "SendToExternalKey") && hasEff(effs, "store", "Delete", "OutgoingTxKey") && !hasEff(effs, "bank", "BurnCoins", "") {
-			out = append(out, f)
-		}
-	}
-	return out
+	return c.roleFuncs(reach, func(f *ssa.Function, effs []Eff) bool {
+		return hasEff(effs, "store", "Set", "SendToExternalKey") && hasEff(effs, "store", "Delete", "OutgoingTxKey") && !hasEff(effs, "bank", "BurnCoins", "")
+	})
 }
 
 // batchExecutedFns: mint + delete of an outgoing tx.
 func (c *Ctx) batchExecutedFns(reach map[*ssa.Function]bool) []*ssa.Function {
-	var out []*ssa.Function
-	for _, f := range c.SemanticFuncs(reach) {
-		effs := c.Effects(f)
-		if hasEff(effs, "bank", "MintCoins", "") && hasEff(effs, "store", "Delete", "OutgoingTxKey") {
-			out = append(out, f)
-		}
-	}
-	return out
+	return c.roleFuncs(reach, func(f *ssa.Function, effs []Eff) bool {
+		return hasEff(effs, "bank", "MintCoins", "") && hasEff(effs, "store", "Delete", "OutgoingTxKey")
+	})
 }
 
 func (c *Ctx) atomNotMinter() ana.Atom {
@@ -197,7 +187,7 @@ func checkC13(c *Ctx) {
 	// writers of the observed external height
 	ws := c.Writers(c.LiveReach(), "Set", "LastExternalBlockHeightKey")
 	for _, f := range sortedKeys(ws) {
-		if isRoot(f, roots.InitGen) {
+		if c.isGenesisImport(f) {
 			r.Ok("C13.timeout-guard", "height-writer:"+fname(f), p.Pos(f.Pos()), "genesis import")
 			continue
 		}
@@ -222,14 +212,19 @@ func checkC13(c *Ctx) {
 		}
 		// and only behind the quorum test and the next-nonce test
 		okQ := true
-		quorum := ana.AtomCallBool(func(call *ssa.Call, d ana.CalleeDesc) bool {
-			if d.Recv != "Int" || (d.Name != "GTE" && d.Name != "GT") || len(call.Call.Args) != 2 {
-				return false
+		quorum := ana.AtomMethodCmp(func(op token.Token, x, y ssa.Value, call *ssa.Call) (bool, bool) {
+			if d, _ := ana.Describe(&call.Call); d.Recv != "Int" {
+				return false, false
 			}
-			return p.Leaves(call.Call.Args[0], ana.PVOpt{}).HasCall("StakingKeeper.GetLastValidatorPower") && p.Leaves(call.Call.Args[1], ana.PVOpt{}).HasCall("StakingKeeper.GetLastTotalPower")
-		}, true)
+			isPow := func(v ssa.Value) bool { return p.Leaves(v, ana.PVOpt{}).HasCall("StakingKeeper.GetLastValidatorPower") }
+			isReq := func(v ssa.Value) bool { return p.Leaves(v, ana.PVOpt{}).HasCall("StakingKeeper.GetLastTotalPower") }
+			if ana.AtLeast(op, x, y, isPow, isReq) {
+				return true, true
+			}
+			return false, false
+		})
 		for _, e := range ws[f] {
-			if !ana.Guarded(e.At, quorum) {
+			if !c.guardedUp(e.At, quorum) {
 				okQ = false
 			}
 		}
